@@ -183,6 +183,29 @@ def retry_timeouts(answers, timed_out, skipped, rerun):
     return n
 
 
+def static_objects(repo, scratch):
+    """compile pcp_server.c of the tree under test and list (a) the objects of static storage duration it defines
+    (nm types B b D d C: data, bss, common -- function-local statics appear as `name.N`), (b) the functions it calls.
+    Returns (sorted names of (a) without the `.N` suffix, sorted names of (b)) or None when it does not compile."""
+    import subprocess
+    obj = os.path.join(scratch, "pcp_server_nm.o")
+    p = subprocess.run(["gcc", "-c", "-w", "-O0", "-DHAVE_CONFIG_H", "-I" + repo, "-I" + repo + "/src/pdsh",
+                        "-I" + repo + "/src/common", os.path.join(repo, "src/pdsh/pcp_server.c"), "-o", obj],
+                       stdout=subprocess.PIPE, stderr=subprocess.PIPE)
+    if p.returncode != 0:
+        return None
+    out = subprocess.run(["nm", obj], stdout=subprocess.PIPE).stdout.decode()
+    os.unlink(obj)
+    defs, calls = set(), set()
+    for line in out.splitlines():
+        w = line.split()
+        if len(w) >= 2 and w[-2] in ("B", "b", "D", "d", "C", "c", "S", "s", "G", "g"):
+            defs.add(w[-1].split(".")[0])
+        elif len(w) == 2 and w[0] == "U":
+            calls.add(w[1])
+    return sorted(defs), sorted(calls)
+
+
 # branches of the receiver automaton (tags of Driver/PcpDrv.lean covRun) taken by the model runs of this check run
 BRANCHES = {}
 EXPECTED_BRANCHES = (
